@@ -39,7 +39,7 @@ def bounds(tier, seed):
 def batches(subj):
     if subj.startswith("ActNorm4d"):
         b1 = pat_tensor((3, 2, 2, 2), 2, 1.5) + 0.7
-        b2 = pat_tensor((4, 2, 2, 2), 3, 0.6) - 1.1
+        b2 = pat_tensor((1, 2, 2, 2), 3, 0.6) - 1.1  # a single image (batch size one is a perfectly good initialisation batch: H*W values per channel)
     else:
         b1 = pat_tensor((4, 3), 2, 1.5) + 0.7
         b2 = pat_tensor((5, 3), 3, 0.6) - 1.1
